@@ -235,7 +235,9 @@ def check_c05(prop, tier, replay, selftest):
 # ------------------------------------------------------------------ C06 C07 C13 (store level, shared harness subcommand)
 BDD_RULE = ("records = operations on real Bdd objects (fresh stores, stores of natively compiled and bridge-imported ADFs with "
             "semantics calls in between, stores continued after serde import / rebuild); the complete node table and the memo tables "
-            "(hook H1) are logged after every operation; distinct = distinct (operation, operands, resulting table); non-trivial = the "
+            "(hook H1) are logged after every operation; plus long sequences (30-70 operations) on large stores over 7-10 variables (tables up to "
+            "250 nodes), one record each with the final table, the operation list, two intermediate tables, the memo tables and the queries of "
+            "the deepest handles, judged with the BigBdd operators; distinct = distinct (operation, operands, resulting table); non-trivial = the "
             "operation appended at least one node")
 
 
@@ -269,8 +271,18 @@ def check_bdd(prop, tier, replay, selftest):
             rec["r"] = (rec["r"] + 1) % len(rec["nodes"])
             return rec
         ok = selftest_corrupt("Trace_Bdd", out, corrupt, boundary=is_reset)
-        print("SELFTEST %s: %s" % (prop, "binding demonstrated" if ok else "FAILED"))
-        return 0 if ok else 2
+        def corrupt_big(rec):
+            # a long sequence on a large store: one operation's result handle replaced by its neighbour
+            if rec.get("kind") != "bigseq":
+                return None
+            for o in rec["ops"][len(rec["ops"]) // 2:]:
+                if o["op"] != "var" and o["r"] > 1:
+                    o["r"] = o["r"] - 1
+                    return rec
+            return None
+        ok2 = selftest_corrupt("Trace_Bdd", out, corrupt_big, boundary=is_reset)
+        print("SELFTEST %s: %s (step records), %s (large stores)" % (prop, "binding demonstrated" if ok else "FAILED", "binding demonstrated" if ok2 else "FAILED"))
+        return 0 if ok and ok2 else 2
     _bdd_mc(prop, tier, res)
     tr = tlc_trace("Trace_Bdd", out, boundary=is_reset)
     res.add_trace(tr)
@@ -313,9 +325,21 @@ def _bdd_collect(prop, res, tr, props=None, build=None):
             nops += 1
             if r["h"] > 1:
                 seen.add(hashlib.sha1(json.dumps([r["h"], r["nodes"]]).encode()).hexdigest())
+        elif k == "bigseq":
+            nops += len(r["ops"]) + len(r["queries"])
+            seen.add(hashlib.sha1(json.dumps(r["nodes"]).encode()).hexdigest())
+            if not build:
+                b = res.extra.setdefault("large_stores", {"sequences": 0, "variables": [], "max_nodes": 0, "operations": 0,
+                                                         "judged_by": "BigBdd (integer-assignment denotations built bottom-up; agreement with RobddOps checked on every small table)"})
+                b["sequences"] += 1
+                b["variables"] = sorted(set(b["variables"]) | {r["nv"]})
+                b["max_nodes"] = max(b["max_nodes"], len(r["nodes"]))
+                b["operations"] += len(r["ops"])
     for gl, t in tr["tuples"]:
         if gl is None:
             continue
+        if t[0] == "SPECBUG":
+            raise ToolError("specification inconsistency: %s" % (t,))
         # C06 speaks about FORMULAS and their handles ("same handle iff same function", "collapses to top iff valid"): an operation
         # that hands out a handle denoting another function than the formula it was asked for breaks it as much as a duplicate node does
         also_c06 = prop == "C06" and t[0] == "MISMATCH" and t[3] == "C07" and t[4] != "prefix"
@@ -325,7 +349,7 @@ def _bdd_collect(prop, res, tr, props=None, build=None):
             j = gl - 1
             while j > 0 and not is_reset(tr["lines"][j]):
                 j -= 1
-            seq = [json.loads(x) for x in tr["lines"][j:gl]]
+            seq = [json.loads(x) for x in tr["lines"][j:gl]] if rec.get("kind") != "bigseq" else [rec]
             slim = [{k: v for k, v in s.items() if k not in ("dump",)} for s in seq[:-1]] + [seq[-1]]
             res.violation("%s%s_%s" % (build + "_" if build else "", rec["id"], t[4]),
                           {"property": prop, "component": "bdd", "build": build or "default", "sequence": slim, "mismatch": t},
@@ -342,7 +366,7 @@ def _bdd_collect(prop, res, tr, props=None, build=None):
     ops = [json.loads(l) for l in tr["lines"][:400] if '"kind":"op"' in l]
     res.samples = [{k: v for k, v in o.items() if k != "dump"} for o in ops[20:23]] or [{"note": "no op records"}]
     res.assumptions = ["TLC evaluates RobddOps correctly", "the harness logs the real node table and (hook H1) the real memo tables (binding self-test: --selftest)",
-                       "variables 0..nv-1 with nv <= 5 on the code side; NV = 2 closed state graph (any history) and NV = 3 bounded on the model side"]
+                       "variables 0..nv-1 with nv <= 5 (long sequences on large stores: 7-10) on the code side; NV = 2 closed state graph (any history) and NV = 3 bounded on the model side"]
 
 
 # ------------------------------------------------------------------ C11 / C14 (call histories on one Adf object)
@@ -381,7 +405,7 @@ def _collect_generic(prop, res, tr, component):
             j = gl - 1
             while j > 0 and not is_reset(tr["lines"][j]):
                 j -= 1
-            seq = [json.loads(x) for x in tr["lines"][j:gl]]
+            seq = [json.loads(x) for x in tr["lines"][j:gl]] if rec.get("kind") != "bigseq" else [rec]
             slim = [{k: v for k, v in s.items() if k not in ("dump",)} for s in seq[:-1]] + [seq[-1]]
             res.violation("%s_%s" % (rec["id"], json.dumps(t[4])[:40]), {"property": prop, "component": component, "sequence": slim, "mismatch": t},
                           "%s: %s on record %s (%s)" % (prop, json.dumps(t[4]), rec["id"], rec.get("text", "")))
